@@ -334,3 +334,11 @@ func svcOK(ws *WebService) bool {
 func routeAdmits(r *Route, req *http.Request) bool {
 	return passes(*r, req, 3) && pathAdmitsP(r.pathParts, req.URL.Path, r.hasCustomVerb)
 }
+
+// pathCompiles: the template's regular expression compiles (otherwise Build exits the process).
+//
+//govc:opaque
+func pathCompiles(template string) bool {
+	_, err := newPathExpression(template)
+	return err == nil
+}
